@@ -401,7 +401,8 @@ func (w *nodeWalker) walk(node ast.Node, visit func(ast.Node)) {
 }
 
 // tableNames returns the names written in table positions of the node itself:
-// FROM lists, the joined table of each JOIN, INSERT/UPDATE/DELETE targets and USING lists.
+// FROM lists, the joined table of each JOIN, INSERT/UPDATE/DELETE/MERGE targets, the MERGE
+// source and USING lists.
 // Nested statements (WITH, CTE bodies, set operations, INSERT ... SELECT, derived tables,
 // sub-queries) are nodes of their own and are reached by the traversal.
 // JoinClause.Left is never read: for the second and later joins the parser stores a
@@ -434,6 +435,9 @@ func tableNames(node ast.Node) []string {
 		for _, using := range n.Using {
 			add(using.Name)
 		}
+	case *ast.MergeStatement:
+		add(n.TargetTable.Name)
+		add(n.SourceTable.Name)
 	}
 	return names
 }
